@@ -5,6 +5,7 @@ import (
 	"fmt"
 	"os"
 	"sort"
+	"strings"
 	"testing"
 
 	"pgregory.net/rapid"
@@ -67,6 +68,32 @@ func (c *byteChooser) Int(lo, hi int, _ string) int {
 	return lo + v%span
 }
 
+var allExclusions = []string{exDelBal, exHollow}
+
+// newExclusions activates the exclusions named in VERIF_EXCLUDE (known findings).
+func newExclusions(h *run.H) *exclusions {
+	e := &exclusions{active: map[string]bool{}, count: func(tag string) { h.Excluded(tag) }}
+	for _, t := range allExclusions {
+		if h.IsExcluded(t) {
+			e.active[t] = true
+		}
+	}
+	return e
+}
+
+// fuzzExclusions reads VERIF_EXCLUDE directly (the fuzz target has no run handle).
+func fuzzExclusions() *exclusions {
+	e := &exclusions{active: map[string]bool{}}
+	for _, t := range strings.Split(os.Getenv("VERIF_EXCLUDE"), ",") {
+		for _, k := range allExclusions {
+			if strings.TrimSpace(t) == k {
+				e.active[k] = true
+			}
+		}
+	}
+	return e
+}
+
 // Case is the replay payload: exactly one of the two parts is set.
 type Case struct {
 	Ops  *OpsCase  `json:"ops,omitempty"`
@@ -82,12 +109,13 @@ func TestC16Ops(t *testing.T) {
 	defer h.Finish()
 	h.SetRule(ruleOps)
 	maxOps := h.Scale(60, 200)
+	ex := newExclusions(h)
 	rapid.Check(t, func(rt *rapid.T) {
 		ch := &rapidChooser{t: rt}
-		oc := &OpsCase{Accts: genAccts(ch), Sparse: ch.Int(0, 3, "sparse") == 0}
+		oc := &OpsCase{Accts: genAccts(ch, ex), Sparse: ch.Int(0, 3, "sparse") == 0}
 		n := rapid.IntRange(3, maxOps).Draw(rt, "nops")
 		c := &Case{Ops: oc}
-		v, rec := runOps(oc, n, ch, func() { h.Journal(c) })
+		v, rec := runOps(oc, n, ch, ex, func() { h.Journal(c) })
 		nt, classes := opsClasses(oc, rec)
 		var sample interface{}
 		if len(oc.Ops) < 30 {
@@ -105,7 +133,7 @@ func TestC16Prog(t *testing.T) {
 	defer h.Finish()
 	h.SetRule(ruleProg)
 	maxSteps := h.Scale(14, 30)
-	noKillBal := h.IsExcluded("EVM:selfdestruct-with-balance")
+	ex := newExclusions(h)
 	exclTotal := map[string]int{}
 	defer func() {
 		var ks []string
@@ -119,13 +147,10 @@ func TestC16Prog(t *testing.T) {
 	}()
 	rapid.Check(t, func(rt *rapid.T) {
 		ch := &rapidChooser{t: rt}
-		pc := &ProgCase{Accts: progAccts(ch)}
+		pc := &ProgCase{Accts: progAccts(ch, ex)}
 		n := rapid.IntRange(2, maxSteps).Draw(rt, "nsteps")
 		c := &Case{Prog: pc}
-		if noKillBal {
-			h.Excluded("EVM:selfdestruct-with-balance")
-		}
-		v, r, excl := runProg(pc, n, ch, false, noKillBal, func() { h.Journal(c) })
+		v, r, excl := runProg(pc, n, ch, false, ex, func() { h.Journal(c) })
 		for k, x := range excl {
 			exclTotal[k] += x
 		}
@@ -143,11 +168,11 @@ func TestC16Prog(t *testing.T) {
 
 func replayCase(c *Case) *violation {
 	if c.Ops != nil {
-		v, _ := runOps(c.Ops, 0, nil, nil)
+		v, _ := runOps(c.Ops, 0, nil, nil, nil)
 		return v
 	}
 	if c.Prog != nil {
-		v, _, _ := runProg(c.Prog, 0, nil, false, false, nil)
+		v, _, _ := runProg(c.Prog, 0, nil, false, nil, nil)
 		return v
 	}
 	return nil
@@ -190,13 +215,15 @@ func FuzzC16(f *testing.F) {
 		var v *violation
 		var c Case
 		if data[0]%4 == 0 {
-			oc := &OpsCase{Accts: genAccts(ch), Sparse: ch.Int(0, 3, "sparse") == 0}
+			ex := fuzzExclusions()
+			oc := &OpsCase{Accts: genAccts(ch, ex), Sparse: ch.Int(0, 3, "sparse") == 0}
 			c.Ops = oc
-			v, _ = runOps(oc, 10+len(data)/4, ch, nil)
+			v, _ = runOps(oc, 10+len(data)/4, ch, ex, nil)
 		} else {
-			pc := &ProgCase{Accts: progAccts(ch)}
+			ex := fuzzExclusions()
+			pc := &ProgCase{Accts: progAccts(ch, ex)}
 			c.Prog = pc
-			v, _, _ = runProg(pc, 3+len(data)/48, ch, true, false, nil)
+			v, _, _ = runProg(pc, 3+len(data)/48, ch, true, ex, nil)
 		}
 		if v != nil && v.oracle != "harness" {
 			b, _ := json.Marshal(&c)
@@ -211,7 +238,7 @@ func TestBaseFeeProbe(t *testing.T) {
 	if os.Getenv("VERIF_C16_BASEFEE") == "" {
 		t.Skip("set VERIF_C16_BASEFEE=1")
 	}
-	pc := &ProgCase{Accts: progAccts(&byteChooser{})}
+	pc := &ProgCase{Accts: progAccts(&byteChooser{}, nil)}
 	rtc := []byte{opBASEFEE, opPUSH1, 0, opMSTORE, opPUSH1, 32, opPUSH1, 0, opRETURN}
 	pc.Steps = []PStep{
 		{K: "msg", From: eoaRich.Hex(), Nonce: 0, Value: "0", Gas: 300000, Price: "1", Data: "0x" + fmt.Sprintf("%x", simpleInit(rtc)), Note: "create"},
